@@ -36,6 +36,8 @@ var replacements = map[string]string{
 	"(*crypto/ecdh.PublicKey).Bytes":      "M_ECDHPubBytes",
 	"crypto/rsa.EncryptOAEP":            "M_EncryptOAEP",
 	"crypto/rsa.DecryptOAEP":            "M_DecryptOAEP",
+	"crypto/x509.ParseCertificate":        "M_ParseCertificate",
+	"crypto/x509.ParseCertificateRequest": "M_ParseCertificateRequest",
 	"crypto/aes.NewCipher":              "M_AesNewCipher",
 	"crypto/cipher.NewGCM":              "M_NewGCM",
 	"crypto/cipher.NewCTR":              "M_NewCTR",
